@@ -825,23 +825,30 @@ def cases_program(ctx, rng, program):
         if st[0] == 'leaf':
             continue
         pos = STMT_OPERANDS[st[0]]
+        same_object = len(pos) == 2 and objs[st[1]] is objs[st[2]]
+        roles = []
         for n_, ppos in enumerate(pos):
-            i = st[ppos]
-            role = 'only' if len(pos) == 1 else ('left' if n_ == 0 else 'right')
-            if len(pos) == 2 and st[1] == st[2]:
-                if n_ == 1:
-                    continue                       # the same object on both sides: checked once
-                role = 'both'
+            role = 'only' if len(pos) == 1 else ('both' if same_object else ('left' if n_ == 0 else 'right'))
+            roles.append((st[ppos], role))
+        if same_object:
+            roles = roles[:1]                      # the same object on both sides: checked once
+        # CoNeighbor operands that this statement changes in place (known family F16i), and what references them
+        mutated = set()
+        for i, role in roles:
+            if obj_kind(objs[i]) == 'con' and (st[0], role) in CON_IN_PLACE:
+                mutated |= _con_ids(objs[i])
+        for i, role in roles:
             if i in tainted:
                 continue
+            in_place_con = obj_kind(objs[i]) == 'con' and (st[0], role) in CON_IN_PLACE
+            if not in_place_con and (_con_ids(objs[i]) & mutated):
+                continue                           # changed through the in-place CoNeighbor it references
             sig = {'entry': class_name(objs[i]), 'aspect': 'operand-unchanged', 'reuse': st[0], 'role': role}
             out += cases_for_object(ctx, rng, objs[i], trees[i], sig, dict(desc, checked=i), nontrivial_expr(trees[i]), queries=3)
-            if obj_kind(objs[i]) == 'con' and (st[0], role) in CON_IN_PLACE:
-                # known in-place family: everything that references this object has changed with it
-                ids = _con_ids(objs[i])
-                for j, oj in enumerate(objs):
-                    if _con_ids(oj) & ids:
-                        tainted.add(j)
+        if mutated:
+            for j, oj in enumerate(objs):
+                if _con_ids(oj) & mutated:
+                    tainted.add(j)
         if k not in tainted and not any(st[ppos] in tainted for ppos in pos):
             sig = {'entry': class_name(o), 'aspect': 'dag-result', 'reuse': st[0], 'role': 'result'}
             out += cases_for_object(ctx, rng, o, tree, sig, dict(desc, checked=k), nontriv, queries=2)
